@@ -460,3 +460,22 @@ def connection_choice_without_any_source(case, v):
         if not any(s_ in a['nodes'] for a in archs for s_ in srcs):
             return True
     return False
+
+
+def sup_existence_mapping_same_context_string(case, v):
+    """KF23: SupExistenceMapping (and the inactive-choice test of SupSelChoiceOptionMapping) identify source nodes by
+    their context string; two distinct source nodes with the same displayed name and domain (design-variable nodes
+    'dv0' under two different parents) are taken for one another: a mapping keyed on the absent one sees it as existing"""
+    src = case.get('src') or {}
+    labels = {}
+    for n, nd in src.get('nodes', {}).items():
+        if nd.get('k') == 'dv':
+            labels.setdefault(nd.get('label') or n, []).append(n)
+    twins = {n for group in labels.values() if len(group) > 1 for n in group}
+    if not twins:
+        return False
+    for ch in case.get('sup', []):
+        m = ch.get('map') or {}
+        if m.get('kind') == 'exist' and any(k in twins for k in m.get('order', [])):
+            return True
+    return False
